@@ -44,6 +44,10 @@ def programs(t):
     for (l, r) in [('EU32', 'E7'), ('E7', 'EU32'), ('EU32', 'E31'), ('EU64', 'E15'), ('i8', 'EU7'), ('EU7', 'i8'), ('i32', 'EU15'), ('EU32', 'i32'), ('i16', 'EU32')]:
         for (le, re) in ([(-2, -3)] if not t else [(-2, -3), (0, 0), (3, -1)]):
             lines.append('P(%s, %d, %s, %d, 2)' % (l, le, r, re))
+    # reps with an overflow layer (division of the most negative value by negative divisors other than -1)
+    for (l, r) in [('OVS32', 'OVS32'), ('OVS64', 'OVS64'), ('OVS8', 'OVS8'), ('OVS32', 'OVS8')]:
+        for (le, re) in ([(-2, -3)] if not t else [(-2, -3), (0, 0)]):
+            lines.append('P(%s, %d, %s, %d, 2)' % (l, le, r, re))
     return lines
 
 
